@@ -50,9 +50,10 @@ theorem C01_walk_correct (c : Bridge.Ctx) (cp : Compiled) (inst : Installed) (hi
     (hlen : (Walk.virtPtrs args).length = m.vp.length) (hpos : 0 < m.vp.length)
     (hf : ∀ p v g, (Walk.virtPtrs args)[p]? = some v → gis[p]? = some g → Walk.ArgFact cp inst mi p v g) :
     ∃ cell, resolve inst mi args = .ok (Word.fn mi cell) ∧
-      Selects c.proj c.reg mr.defs ks (Bridge.outcomeOf mr.defs cell) := by
-  obtain ⟨cell, conc, hcell, hsel, _⟩ := Bridge.dispatch_table_correct c m mr hmm cs ks gis hk hloc
-  refine ⟨cell, ?_, hsel⟩
+      Selects c.proj c.reg mr.defs ks (Bridge.outcomeOf mr.defs cell) ∧
+      (∀ i, cell = .defn i → ∃ df, mr.defs[i]? = some df) := by
+  obtain ⟨cell, conc, hcell, hsel, hdef⟩ := Bridge.dispatch_table_correct c m mr hmm cs ks gis hk hloc
+  refine ⟨cell, ?_, hsel, hdef⟩
   have hgl := (Cells.locatedAll_length c.g m 0 m.vp cs gis hloc).2
   rw [← hgraph] at hcell
   exact Walk.resolve_correct cp inst hinst mi m hm ho args gis hlen hgl hpos hf (cell, conc) hcell
